@@ -203,6 +203,9 @@ fn main() {
             let _ = writeln!(out, "{{\"t\":\"digest\",\"i\":{idx},\"k\":\"{k:x}\",\"v\":\"{v:x}\",\"per_config\":{per_cfg}}}");
         }
         shard.absorb(&o);
+        if ctx::stop_requested() {
+            break;
+        }
     }
     let mut distinct = shard.fps.clone();
     distinct.sort_unstable();
